@@ -2234,6 +2234,18 @@ func (sa *Application) GetAllPlaceholderData() []*PlaceholderData {
 	return placeholders
 }
 
+// GetPlaceholderDataCopy returns a copy of the placeholder tracking entries: safe to read without the application lock.
+func (sa *Application) GetPlaceholderDataCopy() []*PlaceholderData {
+	sa.RLock()
+	defer sa.RUnlock()
+	var placeholders []*PlaceholderData
+	for _, taskGroup := range sa.placeholderData {
+		phData := *taskGroup
+		placeholders = append(placeholders, &phData)
+	}
+	return placeholders
+}
+
 func (sa *Application) GetAskMaxPriority() int32 {
 	sa.RLock()
 	defer sa.RUnlock()
